@@ -194,6 +194,17 @@ check("C17", "DESIGN.md 5/C17",
       "Known finding D19 (a data column named like a transform is omitted by the pre-materialization estimate) is reported as "
       "KNOWN-FINDING. Trusted: the concrete values placed in each layer.")
 
+check("C18", "DESIGN.md 5/C18",
+      "TLA+ module Session.tla (operations as functions of their arguments; Det and Frame as action properties) model-checked in TLC over "
+      "all histories; every history executed under three hash seeds and validated step by step by TLC (Trace_Purity)",
+      "TLC enumerates every history of <= 3 (quick) / 4 (thorough) operations over 9 operation instances and checks Det and Frame on the "
+      "model; each history is executed in fresh interpreters with PYTHONHASHSEED 0, 1 and a seeded third value, fingerprinting after every "
+      "step the result (bytes of the numeric payload, column order, dropped rows) and every live object (input frames, the formula, one "
+      "shared un-materialised spec, the spec obtained earlier); Trace_Purity accepts a history iff every step is a Session step (same "
+      "operation -> same result, also with respect to a canonical single-operation run under another seed; no live object changes), and "
+      "the three logs must be identical.",
+      "Trusted: the structural fingerprints. Bit-identity is compared within one interpreter version, not across output types.")
+
 NOT_YET = "check not yet built in this round (planned; see DESIGN.md section 5)"
 
 
